@@ -962,6 +962,16 @@ func (w *gWorld) preMutation() (func(*common.Transaction), string) {
 	}, m.name
 }
 
+// map indexes in increasing order (Go map iteration order is random; every choice derives from r)
+func sortedIdx(m map[uint16]*crypto.Signature) []uint16 {
+	var l []uint16
+	for i := range m {
+		l = append(l, i)
+	}
+	sort.Slice(l, func(a, b int) bool { return l[a] < l[b] })
+	return l
+}
+
 // post-signature mutations of the signature section
 func (w *gWorld) postMutation(s *common.SignedTransaction) string {
 	r := w.r
@@ -1014,7 +1024,7 @@ func (w *gWorld) postMutation(s *common.SignedTransaction) string {
 		return "sigs-empty-map"
 	case 4:
 		for _, m := range s.SignaturesMap {
-			for i := range m {
+			for _, i := range sortedIdx(m) {
 				delete(m, i)
 				return "sigs-one-removed"
 			}
@@ -1022,7 +1032,8 @@ func (w *gWorld) postMutation(s *common.SignedTransaction) string {
 		return "sigs-one-removed"
 	case 5:
 		for _, m := range s.SignaturesMap {
-			for i, sg := range m {
+			for _, i := range sortedIdx(m) {
+				sg := m[i]
 				delete(m, i)
 				m[uint16(Pick(r, []int{1, 2, 3, 8, 255, 65535}))] = sg
 				return "sigs-index-moved"
@@ -1036,7 +1047,8 @@ func (w *gWorld) postMutation(s *common.SignedTransaction) string {
 		return "sigs-swapped"
 	case 7:
 		for _, m := range s.SignaturesMap {
-			for _, sg := range m {
+			for _, i := range sortedIdx(m) {
+				sg := m[i]
 				sg[r.Intn(64)] ^= 1 << r.Intn(8)
 				return "sig-flip"
 			}
@@ -1045,7 +1057,7 @@ func (w *gWorld) postMutation(s *common.SignedTransaction) string {
 	default:
 		// a signature of a different key under a valid index
 		for _, m := range s.SignaturesMap {
-			for i := range m {
+			for _, i := range sortedIdx(m) {
 				sg := w.acct().PrivateSpendKey.Sign(s.AsVersioned().PayloadHash())
 				m[i] = &sg
 				return "sig-foreign"
